@@ -2,7 +2,7 @@
 
 Fault injection: `before_cursor_execute` raises at the k-th statement of the recreate sequence, for
 every k; plus naturally failing copies (NOT NULL / UNIQUE / CHECK violated by existing rows, CHECK or
-index mentioning a dropped/renamed column, duplicate index names).  Three enclosing scopes: none
+index mentioning a dropped/renamed column, duplicate index names).  Five enclosing scopes (the three below plus the caller's SAVEPOINT, released or rolled back after the error was caught): none
 (`_ensure_scope_for_ddl` opens and rolls back the transaction), the caller's `with conn.begin()`
 (rolled back by the exception), and a caller that swallows the exception and commits.  The database is
 inspected on the same connection and on a fresh one.  Model: `Model.Batch.runBatch` with the same
@@ -52,6 +52,9 @@ TRUSTED = c10mod.TRUSTED + [
     "success_no_tmp / early_tmp_gone / fault_upto_drop_unchanged are proved for all three, the counterexamples and exactness theorems for the "
     "modes that start outside a transaction; `transactional_ddl` is a field of the plan that the model never reads (the unchanged _create "
     "does not consult it) - the theorems hold for both values and the harness runs both",
+    "the caller's SAVEPOINT scopes (sp_release / sp_rollback) are mapped onto the model's explicit-transaction mode: the SAVEPOINT statement "
+    "opens SQLite's transaction on every connection mode, RELEASE + COMMIT after the caught error = finish with commit, ROLLBACK TO = finish "
+    "with rollback; the mapping is validated by the statement / final-state correspondence on every run (no separate savepoint log in the model)",
     "fault model: a fault raises before the statement runs (before_cursor_execute); a statement that takes effect and then reports failure "
     "is not modelled; the class of the raised exception (Exception / KeyboardInterrupt / SystemExit / bare BaseException) is an input of "
     "the harness and a field of the model's plan (FailKind) that no model function reads - the unchanged handler is a bare `except:`",
@@ -169,7 +172,10 @@ def one(ctx, case, pending):
     return r
 
 
-SCOPES = ["none", "outer", "swallow"]
+# enclosing scope: none (flush opens / rolls back its own transaction), the caller's transaction rolled back by the exception (outer) or
+# committed after the exception was swallowed (swallow), the caller's SAVEPOINT released (sp_release) / rolled back (sp_rollback) after
+# the error was caught
+SCOPES = ["none", "outer", "swallow", "sp_release", "sp_rollback"]
 ISOS = ["default", "autocommit", "begin"]     # pysqlite legacy / isolation_level="AUTOCOMMIT" / the BEGIN recipe
 TDDLS = [None, True]                          # transactional_ddl option of the MigrationContext
 # class of the injected exception: Exception / KeyboardInterrupt / SystemExit / a bare BaseException subclass
